@@ -137,6 +137,18 @@ def _task(task):
                                         {"cfg": list(cfg), "offset": offset, "packet": pkt.hex(), "field_bits": fb},
                                         expected=[(x.name, x.value, x.raw) for x in want.items[7:]],
                                         observed=obs[1][7:] if obs[0] == "parsed" else obs[:3], note=why)
+                        if npat < 2 and why is None:
+                            # the same raw packet object (as the framer yields it) decoded twice: the second decode starts at bit 0 again
+                            from space_packet_parser.packets import ccsds_generator
+                            raw_obj = next(ccsds_generator(pkt))
+                            for attempt in (1, 2):
+                                why2 = compare_outcome(want, parse_one(defn, raw_obj))
+                                t.evals += 1
+                                if why2:
+                                    t.violation({"kind": "decode-mismatch", "family": fam, "history": f"raw packet object decoded {attempt}x"},
+                                                {"cfg": list(cfg), "offset": offset, "packet": pkt.hex(), "field_bits": fb, "reparse": attempt},
+                                                note=why2)
+                                    break
                     npat += 1
         except BaseException as e:  # noqa: BLE001
             t.violation({"kind": "sweep-aborted", "exc": type(e).__name__}, {"cfg": list(cfg), "offset": offset}, observed=str(e)[:200])
@@ -172,7 +184,8 @@ def run(ctx):
                   f"bit offsets 0..7 x (ALL 2^w patterns for w <= {12 if ctx.quick else 16}, else boundary/walking/alternating/index family) x "
                   "neighbour fill {0,1}; floats: binary16 ALL 65536 patterns, binary32/64 every exponent x mantissa family + walking bits + "
                   "specials, MIL-STD-1750A all 256 exponents x ~60 mantissas, both byte orders, "
-                  f"offsets {'0,3 for the full sweeps, 0..7 for binary32/64' if ctx.quick else '0..7'}"),
+                  f"offsets {'0,3 for the full sweeps, 0..7 for binary32/64' if ctx.quick else '0..7'}; "
+                  "per configuration and offset, the first two patterns are also decoded twice from one raw packet object of the framer"),
         "rule": ("one evaluation = one packet parsed by the loaded definition and by the reference interpreter; distinct non-trivial = "
                  "distinct (configuration, offset, field bit pattern) triples"),
     }
@@ -193,6 +206,14 @@ def replay(case):
     pkt[0] &= 0xF8
     pkt[1] = 0
     pkt = bytes(pkt)
+    if case.get("reparse"):
+        from space_packet_parser.packets import ccsds_generator
+        raw_obj = next(ccsds_generator(pkt))
+        for attempt in (1, 2):
+            why = compare_outcome(decode_packet(doc, pkt), parse_one(defn, raw_obj))
+            if why:
+                return {"sig": {"kind": "decode-mismatch", "family": cfg[0], "history": f"raw packet object decoded {attempt}x"}, "case": case, "note": why}
+        return None
     why = compare_outcome(decode_packet(doc, pkt), parse_one(defn, pkt))
     if why:
         return {"sig": {"kind": "decode-mismatch", "family": cfg[0], "enc": cfg[2], "lsb_first": cfg[3], "aligned": offset == 0},
